@@ -45,7 +45,7 @@ func (o opSpec) String() string {
 	switch {
 	case o.K.isInst() || o.K == kLookup:
 		return fmt.Sprintf("%s(%s%s)", kindShort[o.K], nameStr(o.N), lop{F: o.F, S: o.S, X: o.X, N2: o.N2}.mark())
-	case o.K == kClose || o.K == kIsClosed:
+	case o.K == kClose || o.K == kIsClosed || o.K == kCtxClose || o.K == kCall:
 		return fmt.Sprintf("%s(h%d)", kindShort[o.K], o.H)
 	case o.K == kCloseX:
 		return fmt.Sprintf("CX(h%d,%d)", o.H, o.X)
@@ -57,7 +57,8 @@ func (o opSpec) String() string {
 
 type script struct {
 	Engine int        `json:"engine"` // 0 interpreter, 1 compiler
-	Pre    []opSpec   `json:"pre"`    // sequential prefix run by client 0; its handles are given to every client
+	CD     bool       `json:"close_on_context_done,omitempty"`
+	Pre    []opSpec   `json:"pre"` // sequential prefix run by client 0; its handles are given to every client
 	G      [][]opSpec `json:"clients"`
 }
 
@@ -118,7 +119,7 @@ func genOp(r *core.Rng, withRC bool) opSpec {
 }
 
 func genScript(r *core.Rng, engine int) *script {
-	sc := &script{Engine: engine}
+	sc := &script{Engine: engine, CD: r.Chance(1, 3)}
 	for i, n := 0, r.Intn(3); i < n; i++ { // 0-2 modules that exist before the clients start
 		o := opSpec{K: kInst, N: r.Intn(3)}
 		if r.Chance(1, 5) {
@@ -164,6 +165,12 @@ func instantiateEnv(rt wazero.Runtime) {
 		_ = m.CloseWithExitCode(ctx, n) // what WASI proc_exit does
 		panic(sys.NewExitError(n))
 	}).Export("exit").
+		NewFunctionBuilder().WithFunc(func(ctx context.Context) {
+		if s, ok := ctx.Value(startedKey{}).(*startSignal); ok {
+			s.once.Do(func() { close(s.c) })
+		}
+		runtime.Gosched()
+	}).Export("tick").
 		Instantiate(bg)
 	if err != nil {
 		panic(err)
@@ -180,6 +187,7 @@ func guestBin(k, start int, x uint32, peer int) []byte {
 	fPanic := m.ImportFunc(envName, "panic_exit", i32, nil)
 	fClose := m.ImportFunc(envName, "close_self", i32, nil)
 	fExit := m.ImportFunc(envName, "exit", i32, nil)
+	fTick := m.ImportFunc(envName, "tick", nil, nil)
 	var fPeer uint32
 	if start == sCallPeer {
 		fPeer = m.ImportFunc(modNames[peer], "boom", i32, nil)
@@ -190,6 +198,9 @@ func guestBin(k, start int, x uint32, peer int) []byte {
 	}
 	m.ExportFunc("f", m.AddFunc(params, nil, nil, (&wenc.Code{}).End().B))
 	m.ExportFunc("boom", m.AddFunc(i32, nil, nil, (&wenc.Code{}).LocalGet(0).Call(fExit).End().B))
+	m.ExportFunc("nop", m.AddFunc(nil, nil, nil, (&wenc.Code{}).End().B))
+	// spin: loop { tick() } - only a context-driven close ends it
+	m.ExportFunc("spin", m.AddFunc(nil, nil, nil, (&wenc.Code{}).Loop(0x40).Call(fTick).Br(0).End().End().B))
 	c := &wenc.Code{}
 	switch start {
 	case sNone:
@@ -227,11 +238,23 @@ var fsBin = func() []byte {
 	return m.Encode()
 }()
 
-func rtConfig(engine int) wazero.RuntimeConfig {
+func rtConfig(engine int, closeOnContextDone ...bool) wazero.RuntimeConfig {
+	cfg := wazero.NewRuntimeConfigInterpreter()
 	if engine == 1 {
-		return wazero.NewRuntimeConfigCompiler()
+		cfg = wazero.NewRuntimeConfigCompiler()
 	}
-	return wazero.NewRuntimeConfigInterpreter()
+	if len(closeOnContextDone) > 0 && closeOnContextDone[0] {
+		cfg = cfg.WithCloseOnContextDone(true)
+	}
+	return cfg
+}
+
+// startSignal lets the host function "tick" tell the harness that the guest
+// call it is part of is running.
+type startedKey struct{}
+type startSignal struct {
+	once sync.Once
+	c    chan struct{}
 }
 
 // ---------------------------------------------------------------------------
@@ -367,6 +390,7 @@ type finding struct {
 }
 
 type hist struct {
+	cd     bool // runtime built WithCloseOnContextDone(true)
 	rt     wazero.Runtime
 	cm     wazero.CompiledModule
 	stamp  bool
@@ -403,12 +427,19 @@ func classifyInstErr(err error) (resKind, string) {
 // recovered; the operation then has no return stamp.
 func (h *hist) exec(client int, sp opSpec, hs *[]api.Module, bin []byte) (r rec) {
 	r = rec{client: client, spec: sp, kind: sp.K, name: sp.N}
-	switch sp.K {
-	case kClose, kCloseX, kIsClosed:
+	if sp.K.onHandle() {
 		if len(*hs) == 0 {
 			r.kind = kLookup // nothing to act on yet: look the name up instead
 		} else {
 			r.mod = (*hs)[sp.H%len(*hs)]
+			if _, guest := r.mod.(*wasm.ModuleInstance); r.kind == kCtxClose || r.kind == kCall {
+				switch {
+				case !guest || r.mod.ExportedFunction("spin") == nil: // host module / guest without the exports
+					r.kind = map[opKind]opKind{kCtxClose: kCloseX, kCall: kIsClosed}[r.kind]
+				case r.kind == kCtxClose && !h.cd:
+					r.kind = kCloseX // nothing would ever stop the call
+				}
+			}
 		}
 	}
 	defer func() {
@@ -519,6 +550,57 @@ func (h *hist) exec(client int, sp opSpec, hs *[]api.Module, bin []byte) (r rec)
 		err := r.mod.CloseWithExitCode(bg, sp.X)
 		r.ret = h.tick()
 		closeDone(err)
+	case kCtxClose:
+		spin, nop := r.mod.ExportedFunction("spin"), r.mod.ExportedFunction("nop")
+		sig := &startSignal{c: make(chan struct{})}
+		cctx := context.WithValue(bg, startedKey{}, sig)
+		var cancel context.CancelFunc
+		done := make(chan struct{})
+		if sp.X%2 == 1 {
+			cctx, cancel = context.WithTimeout(cctx, 200*time.Microsecond)
+		} else {
+			cctx, cancel = context.WithCancel(cctx)
+			go func(cancel context.CancelFunc) { // cancel once the guest is known to be running
+				select {
+				case <-sig.c:
+					cancel()
+				case <-done:
+				}
+			}(cancel)
+		}
+		r.call = h.tick()
+		_, err := spin.Call(cctx)
+		close(done)
+		cancel()
+		_, err2 := nop.Call(bg) // one more call on the handle: must fail, must not notify again
+		closed := r.mod.IsClosed()
+		r.ret = h.tick()
+		var ee *sys.ExitError
+		switch {
+		case err == nil:
+			r.res, r.err = rOtherErr, "the spinning call returned without an error"
+		case !errors.As(err, &ee):
+			r.res, r.err = rOtherErr, "the call cut by the context did not return an exit error: "+err.Error()
+		case !closed:
+			r.res, r.err = rOtherErr, "the module is still open after its call was cut by the context: "+err.Error()
+		case err2 == nil:
+			r.res, r.err = rOtherErr, "a call on the module closed by the context succeeded"
+		default:
+			r.err = err.Error()
+		}
+	case kCall:
+		nop := r.mod.ExportedFunction("nop")
+		r.call = h.tick()
+		_, err := nop.Call(bg)
+		r.ret = h.tick()
+		r.res = rOK
+		if err != nil {
+			r.res, r.err = rClosedErr, err.Error()
+			var ee *sys.ExitError
+			if !errors.As(err, &ee) {
+				r.res = rOtherErr
+			}
+		}
 	case kIsClosed:
 		r.call = h.tick()
 		b := r.mod.IsClosed()
@@ -619,8 +701,8 @@ func hash64(b []byte) string {
 // recorded) or "race" (no harness synchronisation between clients).
 func runHistory(sc *script, hc hookCfg, mode string) *histOut {
 	out := &histOut{ops: map[string]int{}}
-	h := &hist{stamp: mode == "conc", engine: sc.Engine}
-	h.rt = wazero.NewRuntimeWithConfig(bg, rtConfig(sc.Engine))
+	h := &hist{stamp: mode == "conc", engine: sc.Engine, cd: sc.CD}
+	h.rt = wazero.NewRuntimeWithConfig(bg, rtConfig(sc.Engine, sc.CD))
 	var err error
 	instantiateEnv(h.rt)
 	if h.cm, err = h.rt.CompileModule(bg, baseBin); err != nil {
@@ -674,6 +756,11 @@ func runHistory(sc *script, hc hookCfg, mode string) *histOut {
 	wg.Wait()
 	for _, rs := range perClient {
 		recs = append(recs, rs...)
+	}
+	if sc.CD { // after the clients: client 0 lets the context close what it created in the beginning
+		for i := range pre {
+			recs = append(recs, h.exec(0, opSpec{K: kCtxClose, H: i, X: uint32(i)}, &pre, nil))
+		}
 	}
 	var none []api.Module
 	recs = append(recs, h.exec(0, opSpec{K: kRtClose}, &none, nil))
@@ -736,13 +823,23 @@ func (h *hist) finish(out *histOut, sc *script, recs []rec, hk *hookState) {
 		switch r.kind {
 		case kRtClose:
 			rtCodes[r.spec.X] = true
-		case kClose, kCloseX:
+		case kClose, kCloseX, kCtxClose:
 			if modCodes[o.ID] == nil {
 				modCodes[o.ID] = map[uint32]bool{}
 			}
 			x := r.spec.X
 			if r.kind == kClose {
 				x = 0
+			}
+			if r.kind == kCtxClose {
+				x = sys.ExitCodeContextCanceled
+				if r.spec.X%2 == 1 {
+					// a deadline that has already passed when the call begins still closes with the deadline code
+					x = sys.ExitCodeDeadlineExceeded
+				}
+				if r.res == rOtherErr {
+					out.add("context-close:"+strings.SplitN(r.err, ":", 2)[0], fmt.Sprintf("context-driven close of m%d: %s", o.ID, r.err), nil)
+				}
 			}
 			modCodes[o.ID][x] = true
 		}
